@@ -171,7 +171,8 @@ def check(R):
             gname = FS + '::has_pending_noc_for' if vid else FS + '::is_armed_for'
             R.cut('P2', b, 'FabricPersist::store', call_bbs(b, 'fabric::FabricPersist::store'), f'{gname.split("::")[-1]}(fab) == false',
                   lambda b=b, gname=gname: _fail_edges(R, b, gname))
-        R.floor('guarded FabricPersist::store sites', n, 8)
+        # the groups / groupcast / group-key clusters exist only with the `groups` feature (config d has it off)
+        R.floor('guarded FabricPersist::store sites', n, {'q': 8, 'r': 8}.get(R.config, 2))
 
     # ---- e --------------------------------------------------------------------
     with R.clause('e'):
